@@ -100,14 +100,14 @@ fn multi_files() -> Vec<(&'static str, AProg, Vec<(&'static str, Vec<u16>)>, Vec
 }
 fn multi_objs() -> &'static Vec<Vec<ObjectFile>> {
     static O: std::sync::OnceLock<Vec<Vec<ObjectFile>>> = std::sync::OnceLock::new();
-    O.get_or_init(|| multi_files().iter().map(|f| (0..2).map(|d| assemble_prog(&f.1, d == 1 || !f.3.is_empty(), &Style::plain()).expect("multi family assembles").0).collect()).collect())
+    O.get_or_init(|| multi_files().iter().map(|f| (0..2).map(|d| assemble_prog(&f.1, d == 1 || f.2.is_empty(), &Style::plain()).expect("multi family assembles").0).collect()).collect())
 }
 /// decodes the k-th ordered selection of `len` distinct files out of 7
 fn selection(mut k: u64, len: usize) -> Option<Vec<usize>> { let mut v = vec![]; for _ in 0..len { v.push((k % 7) as usize); k /= 7; } let mut s = v.clone(); s.sort(); s.dedup(); if s.len() == len { Some(v) } else { None } }
 fn check_multi(k: u64, len: usize, right: bool, user_debug: bool) -> Option<(String, String)> {
     let sel = selection(k, len)?;
     let files = multi_files(); let objs = multi_objs();
-    let tag = format!("{} of {:?} (users assembled {} debug symbols)", if right { "right fold" } else { "left fold" }, sel.iter().map(|i| files[*i].0).collect::<Vec<_>>(), if user_debug { "with" } else { "without" });
+    let tag = format!("{} of {:?} (files with externals assembled {} debug symbols)", if right { "right fold" } else { "left fold" }, sel.iter().map(|i| files[*i].0).collect::<Vec<_>>(), if user_debug { "with" } else { "without" });
     let r = catch(|| -> Result<(), (String, String)> {
         let order: Vec<usize> = if right { sel.iter().rev().copied().collect() } else { sel.clone() };
         let mut acc: Option<ObjectFile> = None; let mut present: Vec<usize> = vec![];
@@ -140,7 +140,7 @@ fn check_multi(k: u64, len: usize, right: bool, user_debug: bool) -> Option<(Str
 }
 
 pub fn run(ctx: &Ctx) -> Report {
-    let mut rep = Report::new(".external X placed {before the block, inside before the use, inside after the use, after the block, between two blocks (use before / after)} x {1 use, 2 uses, 2 uses in different letter case} x user assembled with/without debug symbols x 3 origins x 3 definer addresses x definer with/without debug symbols x label name {ASCII mixed case, containing a non-ASCII letter}; direct load must fail with UnresolvedExternal; after linking with a definer that carries its label table, in either order, every .fill word must hold X's address and the load must succeed; after linking with a definer assembled without debug symbols (no label table, nothing to resolve against) the load must still fail with UnresolvedExternal rather than run with 0. Chains: every ordered selection of 2-3 (thorough 4) of 7 files (two users of 2 and 3 distinct externals with repeated and differently-cased uses, definers of P / Q / R / P+Q, a definer of R that itself uses P), folded from the left and from the right, users with and without debug symbols; after every link step: if some used label is still undefined the load must fail naming one of them, otherwise it must succeed with every .fill site holding its label's address; links fail only on duplicate definitions. non-trivial = every case (each has an unresolved external)");
+    let mut rep = Report::new(".external X placed {before the block, inside before the use, inside after the use, after the block, between two blocks (use before / after)} x {1 use, 2 uses, 2 uses in different letter case} x user assembled with/without debug symbols x 3 origins x 3 definer addresses x definer with/without debug symbols x label name {ASCII mixed case, containing a non-ASCII letter}; direct load must fail with UnresolvedExternal; after linking with a definer that carries its label table, in either order, every .fill word must hold X's address and the load must succeed; after linking with a definer assembled without debug symbols (no label table, nothing to resolve against) the load must still fail with UnresolvedExternal rather than run with 0. Chains: every ordered selection of 2-3 (thorough 4) of 7 files (two users of 2 and 3 distinct externals with repeated and differently-cased uses, definers of P / Q / R / P+Q, a definer of R that itself uses P), folded from the left and from the right, every file that declares externals (users, and the definer that itself uses an external) with and without debug symbols; after every link step: if some used label is still undefined the load must fail naming one of them, otherwise it must succeed with every .fill site holding its label's address; links fail only on duplicate definitions. non-trivial = every case (each has an unresolved external)");
     let n = PLACEMENTS * USES * 2 * 3 * 3 * 2 * 2;
     let r = sweep(ctx, n, 4, |i, acc| {
         acc.evals += 1; acc.transitions += 6; acc.nontrivial += 1;
